@@ -1,6 +1,8 @@
 import DriverOps.Common
 import DriverOps.Reader
+import DriverOps.Data
 import LasioModel.ReadObj
+import LasioModel.ReadObjFull
 /- driver ops with prefix "ro." (owned by the ReadObj model: the TYPED header `read()` builds)
 
   "ro.read"   {"text", "ignore": bool, "case": "upper"|"lower"|"preserve"}
@@ -13,6 +15,12 @@ import LasioModel.ReadObj
               (the EXACT decimal the literal denotes; its binary64 rounding is `float(v)`, not modelled)
   "ro.value"  {"kind": "curves"|"params"|"metadata", "name", "value"} → VALUE          (`Ro.typeValue`)
   "ro.kind"   {"title", "version": text}                              → kind            (`Ro.parserKind`)
+  "ro.full"   {"text", "ignore", "case", "engine": "numpy"|"normal", "null_policy": "strict"|"none", "null": float-text|null,
+               "floats": {token: float-text}}                                            (`Ro.readFullCols` / `Ro.readObjFull`)
+      → {"ok": {"sections": … (as "ro.read"), "curves": [[float-text …] …] (column-major, one per curve),
+                "index_initial": [float-text …] | null}}
+      | {"err": …} (header errors as "rd.header") | {"dataerr": "ReshapeError"|"IndexError"|"Other"} | "unmodelled"
+        ("unmodelled": not exactly one data section, a text column, an extra curve, or an undecided provisional version)
 -/
 open Lean Lasio
 
@@ -51,6 +59,32 @@ def handleReadObj (op : String) (j : Json) : Except String Json := do
         ("sections", jlist roSec th.sections),
         ("steer", Json.arr #[rdOpt th.raw.steer.vers, rdOpt th.raw.steer.wrap, rdOpt th.raw.steer.null, rdOpt th.raw.steer.dlm]),
         ("data", jlist rdWin th.raw.data)])])
+  | "ro.full" =>
+    let text ← fldS j "text"
+    let ign ← (← fld j "ignore").getBool?
+    let c ← rdCase (← (← fld j "case").getStr?)
+    let engine ← (← fld j "engine").getStr?
+    let np ← (← fld j "null_policy").getStr?
+    let null ← dtOptStr (← fld j "null")
+    let ft ← dtGetFloats (← fld j "floats")
+    let eng : Option Dt.Engine := match engine with | "numpy" => some .numpy | "normal" => some .normal | _ => none
+    let pol : Option Dt.NullPolicy := match np with | "strict" => some .strict | "none" => some .none | _ => none
+    match eng, pol with
+    | some e, some p =>
+      if text.take 4 == "LASF".toList then pure (rdErr .lasf)
+      else
+        let env : Ro.Env := ⟨⟨fun _ => .nan, fun t => t⟩, ft, fun _ => none, fun _ => null⟩
+        match Ro.readFullCols env ⟨⟨ign, c⟩, ⟨e, p⟩⟩ (Rd.splitLines text) with
+        | .error (.header e) => pure (rdErr e)
+        | .error (.data e) => pure (Json.mkObj [("dataerr", dtJErr e)])
+        | .error .unmodelled => pure (Json.str "unmodelled")
+        | .ok (th, cols) =>
+          let tc := Ro.textColumns cols
+          pure (Json.mkObj [("ok", Json.mkObj [
+            ("sections", jlist roSec th.sections),
+            ("curves", jlist (jlist jstr) tc),
+            ("index_initial", match tc.head? with | some c0 => jlist jstr c0 | none => Json.null)])])
+    | _, _ => pure (Json.str "unmodelled")
   | "ro.value" =>
     let k ← roGetKind (← (← fld j "kind").getStr?)
     pure (roVal (Ro.typeValue k (← fldS j "name") (← fldS j "value")))
